@@ -460,3 +460,65 @@ func TestGovcReplay(t *testing.T) {
 		},
 	})
 }
+
+func init() {
+	harnesses = append(harnesses, &harness{
+		name: "bolt header block replay (dangling bytes after the last key/value pair)",
+		match: func(o *Obligation) bool {
+			return strings.Contains(o.Func, "mosn.io/pkg/header.DecodeHeader") && o.Kind == "bounds"
+		},
+		run: func(eng *Engine, o *Obligation) *ReplayOutcome {
+			n := modelInt(o, "len(bytes)", "1")
+			src := fmt.Sprintf(`package bolt
+
+import (
+	"context"
+	"fmt"
+	"testing"
+
+	"mosn.io/pkg/buffer"
+	"mosn.io/pkg/header"
+)
+
+// The refuted bounds obligation says: fewer than 4 bytes remain where a length prefix is read.
+// Replay 1: the header codec directly, with the model's block length (all zero bytes).
+// Replay 2: the same block inside a complete bolt request frame through the real decoder.
+func TestGovcReplay(t *testing.T) {
+	n := %s
+	if n < 1 || n > 1<<16-1 { n = 1 }
+	try := func(name string, f func()) (msg string) {
+		defer func() {
+			if r := recover(); r != nil { msg = fmt.Sprintf("%%s panics: %%v", name, r) }
+		}()
+		f()
+		return ""
+	}
+	var out []string
+	for _, k := range []int{n, 1, 2, 3} {
+		k := k
+		if m := try(fmt.Sprintf("header.DecodeHeader(%%d zero bytes)", k), func() {
+			h := &header.BytesHeader{}
+			header.DecodeHeader(make([]byte, k), h)
+		}); m != "" { out = append(out, m); break }
+	}
+	for _, k := range []int{n, 1} {
+		k := k
+		if m := try(fmt.Sprintf("bolt Decode(request frame with headerLen=%%d)", k), func() {
+			frame := make([]byte, 22+k)
+			frame[0], frame[1] = ProtocolCode, CmdTypeRequest
+			frame[16], frame[17] = byte(k>>8), byte(k)
+			(&boltProtocol{}).Decode(context.Background(), buffer.NewIoBufferBytes(frame))
+		}); m != "" { out = append(out, m); break }
+	}
+	if len(out) > 0 {
+		fmt.Println("REPLAY-CONFIRMED", out)
+	} else {
+		fmt.Println("REPLAY-NOT-REPRODUCED")
+	}
+}
+`, n)
+			out, _ := runOverlayTest("pkg/protocol/xprotocol/bolt", src, "^TestGovcReplay$")
+			return outcomeFromOutput(src, out)
+		},
+	})
+}
